@@ -7,7 +7,7 @@ def run(ctx):
     # the automaton itself: breadth-first construction of the failure links and the scan loop as a step-level spec
     # (TLC: every link is the longest proper suffix that is a node; the scan refines Occ); the link table of every
     # pattern set is compared with the links of the real trie under every build schedule (white box; drift-level)
-    vlib.case_component(ctx, "AhoLinks", "MultiMatch", "AhoImpl", ["MC_aho_quick.cfg"] if ctx.tier == "quick" else ["MC_aho_thorough.cfg", "MC_aho_thorough2.cfg"], "c05",
+    vlib.case_component(ctx, "AhoLinks", "MultiMatch", "AhoImpl", ["MC_aho_quick.cfg", "MC_aho_thorough.cfg"] if ctx.tier == "quick" else ["MC_aho_quick.cfg", "MC_aho_thorough.cfg", "MC_aho_thorough2.cfg"], "c05",
                         extra_args=["-prop", "C05"], tlc_timeout=3000, overlays=["algz"], workers=8)
     # the growable ring queue of the failure-link construction, as a state machine of its own (white box only)
     try:
